@@ -76,6 +76,33 @@ def main():
             traceback.print_exc()
             return 2
     ctx.proof = proof
+    # ---- source hints and escalation (DESIGN §11.6): new numeric literals in the anchored files steer the search; when the translator
+    # tie is lost for an anchored function (Untranslatable -> golden text) or new constants appeared, the run is tied to the source by
+    # the correspondence only, so it explores as deeply as the thorough tier does
+    requested_tier = args.tier
+    try:
+        anchor_files = []
+        for l in open(os.path.join(VERIF, 'properties.jsonl')):
+            pj = json.loads(l)
+            if pj.get('id') == prop:
+                anchor_files = list(pj.get('anchors', {}).get('files', []))
+        all_hints = core.source_hints()
+        ctx.hints = all_hints.restrict(anchor_files)
+        fn2file = {}
+        for k in core.source_literals():
+            fn2file.setdefault(k.split('::')[1].split('.')[-1], set()).add(k.split('::')[0])
+        lost = [u for u in proof.get('untranslatable', [])
+                if not anchor_files or (fn2file.get(str(u.get('function', '')).split('.')[-1], set()) & set(anchor_files))
+                or str(u.get('function', '')).split('.')[-1] not in fn2file]
+        ctx.lost_tie = lost
+        if (lost or ctx.hints) and os.environ.get('VERIF_NO_ESCALATION') != '1' and args.tier == 'quick':
+            ctx.tier = 'thorough'
+            ctx.escalated = True
+            ctx.notes.append({'escalated': 'quick -> thorough exploration', 'because': {
+                'untranslatable': [f"{u.get('function')}:{u.get('line')}" for u in lost][:10], 'new_literals': ctx.hints.describe()}})
+    except Exception as e:  # noqa
+        ctx.hints = core.Hints([])
+        ctx.notes.append(f"source hints unavailable: {type(e).__name__}: {e}")
     if not proof.get('driver_ok', True):
         print("INFRASTRUCTURE ERROR: driver cannot be built even with the golden generated files")
         print(json.dumps(proof['problems'], indent=1)[:3000])
@@ -212,6 +239,8 @@ def main():
         'known_findings_printed': printed_known,
         'translator_fallback': proof.get('fallback', []),
         'untranslatable': proof.get('untranslatable', []),
+        'source_hints': ctx.hints.describe() if getattr(ctx, 'hints', None) else [],
+        'escalated': bool(getattr(ctx, 'escalated', False)),
         'build_s': proof.get('build_s'),
         'notes': jsonable(ctx.notes),
         'exhaustive': bool(getattr(mod, 'EXHAUSTIVE', False)),
